@@ -32,11 +32,19 @@ var users = []*wallet.KeyPair{g.User1, g.User2, g.User3, g.User4, g.User5}
 
 // a few random accepted blocks (transfers, receives of pending sends, contract calls), then a momentum
 func produce(rng *rand.Rand, nd *Node, momentums int, out *Out, actors []*wallet.KeyPair) {
+	produceWith(rng, nd, momentums, out, actors, nil)
+}
+
+// extra(m) runs before the random blocks of momentum m (firsts.go: operations that write ledger keys for the first time)
+func produceWith(rng *rand.Rand, nd *Node, momentums int, out *Out, actors []*wallet.KeyPair, extra func(m int)) {
 	addrs := make([]types.Address, len(users))
 	for i, u := range users {
 		addrs[i] = u.Address
 	}
 	for m := 0; m < momentums; m++ {
+		if extra != nil {
+			extra(m)
+		}
 		nb := rng.Intn(4)
 		for i := 0; i < nb; i++ {
 			u := actors[rng.Intn(len(actors))]
@@ -161,6 +169,16 @@ func observe(b *BareNode, heights []uint64) observation {
 // that was running as its input, and keeps everything the child had reported before.
 func runNodeReorg(rng *rand.Rand, n int, out *Out, args []string) {
 	consensus.EpochDuration = 600 * time.Second // two election ticks (2 x 30 slots of 10 s): the shortest epoch consensus/points.go supports
+	for _, a := range args {
+		switch a {
+		case "nospork":
+			sporkFirsts = false
+		case "nosentinel":
+			sentinelFirsts = false
+		case "noaccelerator":
+			acceleratorFirsts = false
+		}
+	}
 	if len(args) > 0 && args[0] == "inproc" {
 		for i := 0; i < n; i++ {
 			out.Emit(M{"k": "note", "experiment": i})
@@ -175,7 +193,7 @@ func runNodeReorg(rng *rand.Rand, n int, out *Out, args []string) {
 	}
 	tmp := out.F.Name() + ".child"
 	defer os.Remove(tmp)
-	cmd := exec.Command(exe, "nodereorg", "-seed", fmt.Sprint(rng.Int63()), "-n", fmt.Sprint(n), "-out", tmp, "inproc")
+	cmd := exec.Command(exe, append([]string{"nodereorg", "-seed", fmt.Sprint(rng.Int63()), "-n", fmt.Sprint(n), "-out", tmp, "inproc"}, args...)...)
 	var buf bytes.Buffer
 	cmd.Stdout, cmd.Stderr = &buf, &buf
 	runErr := cmd.Run()
@@ -220,6 +238,8 @@ func min(a, b int) int {
 	return b
 }
 
+var experimentNo int // experiments with first writes so far (every sixth one runs with the accelerator spork enforced)
+
 func nodeReorg(rng *rand.Rand, out *Out) {
 	G := NewNode()
 	// pool readers run on every insert / delete notification of every node of the experiment (readers.go)
@@ -227,21 +247,59 @@ func nodeReorg(rng *rand.Rand, out *Out) {
 	P := 2 + rng.Intn(8)       // prefix length (momentums after genesis)
 	LA := 1 + rng.Intn(12)     // abandoned branch
 	LB := LA + 1 + rng.Intn(4) // adopted branch, strictly longer
-	produce(rng, G, P, out, users)
+	// which branch holds FIRST WRITES (firsts.go): the abandoned one only (most runs), both, the adopted one only, none
+	// (the regime before: transfers and contract calls of accounts that hold everything from the genesis on)
+	fg := &firstsGen{rng: rng, nd: G, out: out}
+	mode := rng.Intn(10)
+	firstsA, firstsB := mode <= 7, mode >= 6 && mode <= 8
+	out.Count(fmt.Sprintf("reorg:first-writes:abandoned=%v,adopted=%v", firstsA, firstsB))
+	var prepare, perform func(int)
+	if firstsA || firstsB {
+		prepare = func(m int) { fg.prepare(m == 0) }
+		perform = func(int) { fg.perform() }
+		experimentNo++
+		if acceleratorFirsts && experimentNo%6 == 1 {
+			// the accelerator spork is enforced before the fork, so that a branch can hold the first accelerator project
+			fg.accel = true
+			P = 11 + rng.Intn(3)
+			restore := func() {}
+			defer func() { restore() }()
+			prepare = func(m int) {
+				if r := fg.acceleratorSpork(m); r != nil {
+					restore = r
+				}
+				fg.prepare(m == 0)
+			}
+			out.Count("reorg:accelerator-spork-enforced-before-the-fork")
+		}
+	}
+	produceWith(rng, G, P, out, users, prepare)
 	if rng.Intn(3) == 0 {
 		// fork shortly before the end of an epoch (60 slots of 10 s), so that the abandoned branch crosses the epoch
 		// boundary: the statistics of the finished epoch are computed (and stored) on the abandoned branch first
 		gts := int64(G.Ch.GetGenesisMomentum().TimestampUnix)
 		left := int64(1 + rng.Intn(6))
 		for (int64(FrontierOf(G.Ch).TimestampUnix)-gts)/10%60 < 60-left-4 {
-			produce(rng, G, 1, out, users)
+			produceWith(rng, G, 1, out, users, func(int) {
+				if prepare != nil && rng.Intn(3) == 0 {
+					fg.prepare(false)
+				}
+			})
 		}
 		LA = int(left) + 1 + rng.Intn(8)
 		LB = LA + 1 + rng.Intn(4)
 		out.Count("reorg:fork-shortly-before-epoch-end")
 	}
 	forkH := G.FrontierHeight()
-	produce(rng, G, LB, out, users)
+	accts := allAccounts()
+	gFork := enumerateChain(G.Ch, accts)
+	gForkPoolEmpty := len(G.Ch.GetAllUncommittedAccountBlocks()) == 0
+	if firstsB {
+		produceWith(rng, G, LB, out, users, perform)
+	} else {
+		produce(rng, G, LB, out, users)
+	}
+	countFirstWrites(out, "adopted-branch", gFork, enumerateLight(G.Ch, accts))
 	chainB := WireCopyAll(DetailedRange(G.Ch, 2, G.FrontierHeight()))
 	if err := G.RollbackTo(forkH); err != nil {
 		out.Oracle(false, "generator-rollback-failed", M{"err": err.Error()})
@@ -254,9 +312,18 @@ func nodeReorg(rng *rand.Rand, out *Out) {
 		G.Stop()
 		return
 	}
+	// ... and every enumerating reader of its frontier ledger answers what it answered before the branch was produced
+	if gForkPoolEmpty {
+		compareEnumerations(out, "generator after RollbackTo to the fork point, compared with the same node before it produced the branch", enumerateChain(G.Ch, accts), gFork, M{"fork": forkH, "lb": LB})
+	}
 	// only some of the accounts are active on the abandoned branch
 	na := 1 + rng.Intn(3)
-	produce(rng, G, LA, out, users[:na])
+	if firstsA {
+		produceWith(rng, G, LA, out, users[:na], perform)
+	} else {
+		produce(rng, G, LA, out, users[:na])
+	}
+	countFirstWrites(out, "abandoned-branch", gFork, enumerateLight(G.Ch, accts))
 	chainA := WireCopyAll(DetailedRange(G.Ch, 2, G.FrontierHeight()))
 	poolOnLedger(G.Ch, out, "generator after producing the other branch")
 	G.Stop()
@@ -316,6 +383,8 @@ func nodeReorg(rng *rand.Rand, out *Out) {
 	out.Count(fmt.Sprintf("reorg:pooled-before-switch=%d", pooled))
 	// the switch: the same entry point the downloader/fetcher use; in half of the runs its two halves (RollbackTo to the
 	// fork point, then insertion of the other branch) are made one after the other, so that the node is observed in between
+	ctx := M{"fork": forkH, "la": LA, "lb": LB}
+	fHasPrefix := false
 	if rng.Intn(2) == 0 {
 		if err := RollbackTo(R.Ch, chainA[forkH-2].Momentum.Identifier()); err != nil {
 			out.Oracle(false, "receiver-rollback-failed", M{"err": err.Error()})
@@ -325,6 +394,14 @@ func nodeReorg(rng *rand.Rand, out *Out) {
 		if !poolEmptyAfterRollback(R.Ch, out, "receiver after RollbackTo, before the adopted branch") {
 			return
 		}
+		// rolling back restores exactly the state before the rolled-back momentums, for every key, as the ledger's own
+		// readers see it: R at the fork point against a node that only ever saw the common prefix
+		if _, err := F.Br.InsertChain(chainB[:forkH-1]); err != nil {
+			out.Oracle(false, "reference-rejected-branch-B", M{"err": err.Error()})
+			return
+		}
+		fHasPrefix = true
+		compareEnumerations(out, "receiver after RollbackTo to the fork point, compared with a node that only saw the common prefix", enumerateNode(R, accts, false), enumerateNode(F, accts, false), ctx)
 		out.Count("reorg:switch-in-two-steps")
 	} else {
 		out.Count("reorg:switch-by-InsertChain")
@@ -333,7 +410,11 @@ func nodeReorg(rng *rand.Rand, out *Out) {
 		out.Oracle(false, "receiver-rejected-longer-branch-B", M{"err": err.Error(), "fork": forkH, "la": LA, "lb": LB})
 		return
 	}
-	if _, err := F.Br.InsertChain(chainB); err != nil {
+	restB := chainB
+	if fHasPrefix {
+		restB = chainB[forkH-1:]
+	}
+	if _, err := F.Br.InsertChain(restB); err != nil {
 		out.Oracle(false, "reference-rejected-branch-B", M{"err": err.Error()})
 		return
 	}
@@ -348,10 +429,13 @@ func nodeReorg(rng *rand.Rand, out *Out) {
 	out.Oracle(or.pool == of.pool, "reorg-pool-differs", M{"r": or.pool, "f": of.pool, "fork": forkH, "la": LA, "lb": LB, "pooled": pooled, "rfrontier": or.frontier, "ffrontier": of.frontier})
 	out.Oracle(or.stats == of.stats, "reorg-consensus-stats-differ", M{"r": or.stats, "f": of.stats})
 	out.Oracle(or.sched == of.sched, "reorg-schedule-differs", M{"r": or.sched, "f": of.sched})
+	eF := enumerateNode(F, accts, true)
+	compareEnumerations(out, "receiver after the switch, compared with a node that only saw the adopted branch", enumerateNode(R, accts, true), eF, ctx)
 	// and after a restart of R (cold caches) still the same
 	R2 := R.Reopen()
 	defer R2.Destroy()
 	or2 := observe(R2, hs)
 	out.Oracle(or2.state == of.state && or2.stats == of.stats && or2.sched == of.sched, "reorg-then-restart-differs", M{})
+	compareEnumerations(out, "receiver after the switch and a restart, compared with a node that only saw the adopted branch", enumerateNode(R2, accts, false), eF, ctx)
 	out.Case("node_reorg", Tup(I64(int64(forkH)), I64(int64(LA)), I64(int64(LB))), or.frontier == of.frontier && or.state == of.state, "fork-depth")
 }
